@@ -3,7 +3,7 @@ import ast
 from ..fn import World
 from ..index import AnalysisError, dotted
 from ..astutil import text, short, endswith, calls_in, walk_no_nested
-from ._h_F import Res, res_of, atoms
+from ._h_F import ifn, Res, res_of, atoms
 
 from . import _c22_idem
 
@@ -43,6 +43,30 @@ def _catch_all(h):
   return any(text(x) in ("Exception", "BaseException") for x in names)
 
 
+RENDERERS = ("str", "repr", "safe_repr", "objtypes.safe_repr")
+
+
+def _resolves_to_renderer(w, fn, call, p):
+  """call(p) resolves to a repo function all of whose own returns are renderer calls on its
+  parameter (one level)."""
+  from ..callgraph import CallGraph
+  if [text(a) for a in call.args] != [p] or call.keywords:
+    return False
+  tg = CallGraph(w).resolve(fn, call)
+  if not tg or len(tg) > 1:
+    return False
+  g = w.fn_of(tg[0])
+  gp = [x for x in tg[0].params() if x not in ("self", "cls")]
+  if len(gp) != 1:
+    return False
+  gr = res_of(w, g)
+  rets = gr.returns()
+  return bool(rets) and not gr.falls_off_end() and all(
+    isinstance(leaf, ast.Call) and dotted(leaf.func) in RENDERERS and
+    [text(a) for a in leaf.args] == [gp[0]]
+    for (n, v) in rets for (f, leaf) in Res.cases(v))
+
+
 def r1_totality(run, w):
   R1 = run.rule("C22-R1", "convert() is defined once, returns errors unchanged and fences "
                 "do_convert() with a handler that cannot raise", floor=4)
@@ -50,7 +74,7 @@ def r1_totality(run, w):
   for ci in types[1:]:
     run.ob(R1, ci.qualname, "no convert() override", "column types customise do_convert only",
            "convert" not in ci.methods, nontrivial=False)
-  fn = w.fn("usertypes.BaseColumnType.convert")
+  fn = ifn(w, "usertypes.BaseColumnType.convert")
   p = fn.fi.params()[1]
   cfg = fn.xcfg
   r = res_of(w, fn)          # normal CFG: guards and values
@@ -71,6 +95,35 @@ def r1_totality(run, w):
       any(_catch_all(h) for t in trys for h in t.handlers)
   run.ob(R1, fn.qualname, "try: return self.do_convert(value) except Exception", "a failing "
          "conversion is caught whatever it raises", ok, fi=fn.fi)
+  # what the handler hands back (the alt-text) is the rejected value rendered by a total,
+  # type-agnostic renderer: never another trip through a column type's conversion
+  hs = {n.id for t in trys for h in t.handlers for n in r.cfg.nodes
+        if n.kind == "handler" and n.stmt is h}
+  after = r.cfg.reach(hs) if hs else set()
+  alt = [(n, v) for (n, v) in r.returns() if n.id in after]
+  ok = bool(alt)
+  wit = None
+  for (n, v) in alt:
+    for (facts, leaf) in Res.cases(v):
+      d = dotted(leaf.func) if isinstance(leaf, ast.Call) else None
+      if d in RENDERERS and [text(a) for a in leaf.args] == [p] and not leaf.keywords:
+        continue
+      if isinstance(leaf, ast.JoinedStr) or (isinstance(leaf, ast.Constant) and
+                                             isinstance(leaf.value, str)):
+        continue
+      if d is not None and (d.endswith("do_convert") or d.endswith(".convert") or
+                            d.endswith("toString")):
+        ok, wit = False, "alt-text produced by %s: the result can be convertible again" % d
+      elif isinstance(leaf, ast.Call) and _resolves_to_renderer(w, fn, leaf, p):
+        continue
+      else:
+        raise AnalysisError("convert(): alt-text expression not understood: %s" % short(leaf))
+  if not alt and trys:
+    ok = False
+  run.ob(R1, fn.qualname, "except Exception: return str(value) / safe_repr(value)",
+         "the alt-text of a rejected value is its plain rendering (str / repr), so converting "
+         "it again cannot succeed where the first conversion failed differently", ok,
+         witness=wit, fi=fn.fi)
   # nothing escapes: no path from entry reaches the exceptional exit
   reach = cfg.reach({cfg.entry.id})
   esc = cfg.raise_exit.id in reach
@@ -78,7 +131,7 @@ def r1_totality(run, w):
   if esc:
     wit = cfg.describe_path(cfg.path(cfg.entry.id, {cfg.raise_exit.id}))
     # tolerate calls of safe_repr (itself fenced) and the isinstance test outside a fence
-    sr = w.fn("objtypes.safe_repr")
+    sr = ifn(w, "objtypes.safe_repr")
     sr_ok = any(isinstance(t, ast.Try) and any(_catch_all(h) for h in t.handlers)
                 for t in sr.node.body)
     benign = set()
@@ -435,6 +488,7 @@ VARIANTS = [
       except Exception:
         # If converting to string failed, we should still produce something.
         return objtypes.safe_repr(value_to_convert)""", """      return str(value_to_convert)""", "C22-R1"),
+  ("alttext-via-text-type", UT, "        return str(value_to_convert)\n", "        return Text.do_convert(value_to_convert)\n", "C22-R1"),
   ("errors-converted", UT, """    if isinstance(value_to_convert, objtypes.RaisedException):
       return value_to_convert
 """, "", "C22-R1"),
